@@ -48,7 +48,7 @@ impl ReprKind {
     }
 }
 
-#[derive(Clone, Debug, PartialEq, Eq, PartialOrd, Ord, Hash)]
+#[derive(Debug, PartialEq, Eq, PartialOrd, Ord, Hash)]
 pub enum DynG {
     List(AdjacencyList),
     Map(AdjacencyMap),
@@ -79,6 +79,32 @@ impl Step {
     pub fn uv(&self) -> (usize, usize) {
         match *self {
             Step::Add { u, v } | Step::AddW { u, v, .. } | Step::Remove { u, v } | Step::Toggle { u, v } => (u, v),
+        }
+    }
+}
+
+impl Clone for DynG {
+    fn clone(&self) -> Self {
+        match self {
+            DynG::List(g) => DynG::List(g.clone()),
+            DynG::Map(g) => DynG::Map(g.clone()),
+            DynG::Matrix(g) => DynG::Matrix(g.clone()),
+            DynG::Edge(g) => DynG::Edge(g.clone()),
+            DynG::WI(g) => DynG::WI(g.clone()),
+            DynG::WU(g) => DynG::WU(g.clone()),
+        }
+    }
+
+    /// Forwards to the representation's own `clone_from` (which a type may override to reuse storage).
+    fn clone_from(&mut self, source: &Self) {
+        match (self, source) {
+            (DynG::List(a), DynG::List(b)) => a.clone_from(b),
+            (DynG::Map(a), DynG::Map(b)) => a.clone_from(b),
+            (DynG::Matrix(a), DynG::Matrix(b)) => a.clone_from(b),
+            (DynG::Edge(a), DynG::Edge(b)) => a.clone_from(b),
+            (DynG::WI(a), DynG::WI(b)) => a.clone_from(b),
+            (DynG::WU(a), DynG::WU(b)) => a.clone_from(b),
+            (a, b) => *a = b.clone(),
         }
     }
 }
